@@ -136,7 +136,9 @@ class Native:
         snap: dict[int, dict[str, Any]] = {}
         for tname, fields in getattr(self.side, "MUTABLE_FIELDS", {}).items():
             for obj in self.universe.get(tname, []):
-                snap[id(obj)] = {f: copy.deepcopy(getattr(obj, f)) for f in fields}
+                # fields that refer to other objects of the universe (a tree's children) keep the references: a shallow copy of the list
+                cp = copy.copy if getattr(self.side, "SNAPSHOT_SHALLOW", False) else copy.deepcopy
+                snap[id(obj)] = {f: cp(getattr(obj, f)) for f in fields}
         return snap
 
     def swap_mutable(self, snap: dict[int, dict[str, Any]]) -> dict[int, dict[str, Any]]:
